@@ -229,11 +229,14 @@ def gegluV (x : Vec R) : Vec R :=
 
 /-! ### attention -/
 
+/-- one query row of scaled-dot-product attention: `softmax_j(q . k_j * scale)`, then the weighted sum of
+    the value rows -/
+def sdpaRow (scale : R) (d : Nat) (K V : Mat R) (q : Vec R) : Vec R :=
+  let p := o.softmaxV (K.map fun k => o.mul (o.dot q k) scale)
+  (List.range d).map fun l => o.dot p (o.colOf l V)
+
 /-- `einsum('jk,lk->jl', Q, K) * scale`, `softmax(dim=-1)`, `einsum('jk,kl->jl', P, V)` for one head -/
-def sdpaHead (scale : R) (d : Nat) (Q K V : Mat R) : Mat R :=
-  Q.map fun q =>
-    let p := o.softmaxV (K.map fun k => o.mul (o.dot q k) scale)
-    (List.range d).map fun l => o.dot p (o.colOf l V)
+def sdpaHead (scale : R) (d : Nat) (Q K V : Mat R) : Mat R := Q.map (o.sdpaRow scale d K V)
 
 /-- `1 / sqrt(d)` -/
 def invSqrt (d : Nat) : R := o.div o.one (o.sqrt (o.ofNat d))
